@@ -170,8 +170,8 @@ class Ctx:
         return chosen
 
     # ---- obligations ---------------------------------------------------------------------------
-    def prove(self, name, cond, info=None):
-        """Proof obligation: under the current path condition `cond` holds.  Recorded, then assumed."""
+    def prove(self, name, cond, info=None, assume=True):
+        """Proof obligation: under the current path condition `cond` holds.  Recorded, then (by default) assumed."""
         c = tobool(cond)
         t0 = time.time()
         r = self._check(z3.Not(c))
@@ -190,6 +190,8 @@ class Ctx:
             self.obligations.append((name, 'failed', md, dt, info))
         else:
             self.obligations.append((name, 'unknown', self.solver.reason_unknown(), dt, info))
+        if not assume:
+            return
         if r != z3.sat:
             self.assume_z3(c)
         else:
@@ -199,6 +201,18 @@ class Ctx:
                 self.assume_z3(c)
             else:
                 raise PathAbort("obligation fails on the whole path")
+
+    def check(self, name, cond, info=None):
+        """Independent proof obligation: recorded, not assumed afterwards.  For pure bit-vector formulas a cheap
+        refutation attempt on corner assignments precedes the solver call (a wide sdiv/udiv counter-model search
+        costs z3 seconds; evaluating the formula on all-ones / min-int / 1 costs microseconds)."""
+        c = tobool(cond)
+        if not self.pc:
+            m = _quick_refute(c)
+            if m is not None:
+                self.obligations.append((name, 'failed', m, 0.0, info))
+                return
+        self.prove(name, c, info, assume=False)
 
     def fail(self, name, info=None):
         """An obligation that fails by reaching this point on a feasible path."""
@@ -214,6 +228,27 @@ class Ctx:
 
     def cover(self, name):
         self.obligations.append((name, 'cover', None, 0.0, None))
+
+
+def _quick_refute(c):
+    try:
+        from z3 import z3util
+        vs = z3util.get_vars(c)
+    except Exception:
+        return None
+    if not vs or not all(z3.is_bv(v) for v in vs) or len(vs) > 4:
+        return None
+    import itertools
+    cands = []
+    for v in vs:
+        w = v.size()
+        cands.append(sorted({0, 1, (1 << w) - 1, 1 << (w - 1), (1 << (w - 1)) - 1, 2 % (1 << w), ((1 << w) - 2) % (1 << w)}))
+    for combo in itertools.islice(itertools.product(*cands), 0, 400):
+        sub = [(v, z3.BitVecVal(x, v.size())) for v, x in zip(vs, combo)]
+        r = z3.simplify(z3.substitute(c, *sub))
+        if z3.is_false(r):
+            return {str(v): x for v, x in zip(vs, combo)}
+    return None
 
 
 def ctx():
